@@ -1,10 +1,12 @@
 #!/bin/sh
-# Builds the conformance harness (stable + nightly configurations) and the mlock shim, offline.
+# Builds the conformance harness (stable, nightly, nightly+simd and optimised nightly configurations) and the mlock shim, offline.
 set -e
 cd "$(dirname "$0")/../harness"
 export CARGO_NET_OFFLINE=true
 cargo build --offline --target-dir target/stable
 cargo +nightly build --offline --target-dir target/nightly --features nightly
 cargo +nightly build --offline --target-dir target/simd --features nightly,simd
+# the optimised profile (debug assertions and overflow checks off): every check replays the core of its sweep with it
+cargo +nightly build --offline --release --target-dir target/nightly-release --features nightly
 if [ -f shim/mlockfail.c ]; then gcc -shared -fPIC -O2 -o shim/libmlockfail.so shim/mlockfail.c -ldl; fi
 echo setup done
